@@ -115,6 +115,8 @@ func (pq *pqList) Expire(now time.Time) []interface{} {
 			return out
 		}
 		expired := heap.Pop(&pq.pq).(*bucket)
+		// forget the bucket: a later insert for the same second needs a fresh one in the heap
+		delete(pq.buckets, expired.deadline)
 		for _, v := range expired.data {
 			out = append(out, v.value)
 		}
